@@ -39,6 +39,7 @@ import (
 	"github.com/iDigitalFlame/xmt/c2/task"
 	"github.com/iDigitalFlame/xmt/c2/transform"
 	"github.com/iDigitalFlame/xmt/com"
+	"github.com/iDigitalFlame/xmt/com/limits"
 	"github.com/iDigitalFlame/xmt/data"
 	"github.com/iDigitalFlame/xmt/device"
 	"github.com/iDigitalFlame/xmt/device/local"
@@ -171,6 +172,7 @@ type c05Case struct {
 	Force   string  `json:"force,omitempty"` // forced race: "rekey-batch"
 	OwnID   bool    `json:"own_id,omitempty"`
 	NoModel bool    `json:"no_model,omitempty"`
+	Frag    int     `json:"frag,omitempty"` // fragment limit for this case (limits.Frag is a variable in the overlay)
 	Ops     []c05Op `json:"ops"`
 	Seed    uint64  `json:"seed"`
 }
@@ -354,6 +356,25 @@ func c05Gen(group string, idx int, seed uint64, r *Rng, thorough bool) *c05Case 
 		cs.SleepMs = 10
 		cs.Ops = []c05Op{{Kind: "task", Size: 32, Pad: 8, Gate: true}, {Kind: "pause", Delay: 120},
 			{Kind: "task", Size: 64, Pad: 16}, {Kind: "pause", Delay: 60}, {Kind: "task", Size: 48, Pad: 3}}
+	case "fragedge": // payloads in the band below a multiple of the (lowered) fragment limit, both directions:
+		// the sizes for which the announced fragment count exceeds the number of payload pieces
+		cs.OwnID, cs.NoModel = true, true
+		cs.SleepMs = 8
+		cs.Procs = 8
+		cs.Frag = []int{2048, 3000, 4096}[idx%3]
+		k := 1 + idx%2
+		for d := 0; d < 72; d += 1 + idx%2 {
+			o := c05Op{Kind: "task", Size: 64, Pad: 16}
+			if (d+idx)%2 == 0 {
+				o.Pad = k*cs.Frag - d
+			} else {
+				o.Size = k*cs.Frag - d
+			}
+			cs.Ops = append(cs.Ops, o)
+			if d%12 == 11 {
+				cs.Ops = append(cs.Ops, c05Op{Kind: "pause", Delay: 40})
+			}
+		}
 	case "big": // payloads above the fragment limit (thorough only; the process' own device ID)
 		cs.OwnID, cs.NoModel = true, true
 		cs.SleepMs = 20
@@ -428,6 +449,12 @@ func c05Run(cs *c05Case) (out *c05Out) {
 	}()
 	r := NewRng(cs.Seed, uint64(cs.Index)+7777)
 	runtime.GOMAXPROCS(cs.Procs)
+	if cs.Frag > 0 {
+		// cases run one after the other in this (child) process; the limit is restored for the next one
+		old := limits.Frag
+		limits.Frag = cs.Frag
+		defer func() { limits.Frag = old }()
+	}
 	w := &c05World{ids: map[device.ID]int{}, gates: map[uint16]chan struct{}{}}
 	w.rng.Store(cs.Seed*977 + uint64(cs.Index))
 	w.rekey.Store(int32(cs.Rekey))
@@ -708,6 +735,9 @@ func c05Run(cs *c05Case) (out *c05Out) {
 	}
 	if cs.Group == "big" {
 		budget += 60 * time.Second
+	}
+	if cs.Group == "fragedge" {
+		budget += 10 * time.Second
 	}
 	allDone := make(chan struct{})
 	go func() { ww.Wait(); close(allDone) }()
@@ -1044,8 +1074,15 @@ func c05Abstract(cs *c05Case, ids []device.ID, issued []*c05Issued, log []c2.Ver
 		}
 		return ""
 	}
-	// which Queue records were dropped (a Drop record follows its Queue record in the same goroutine)
+	// which Queue records were dropped (a Drop record follows its Queue record in the same goroutine).
+	// The Queue record is written when queue() is entered, the Drop record after the non-blocking send
+	// found the channel full. A dropped packet is reported to the model at the position of its Drop
+	// record: at that point every packet that filled the channel has already entered queue() (its
+	// record precedes), so "the queue is full" is true of the recorded history as well. Reporting it at
+	// the position of the Queue record made the model reject real histories in which two later
+	// results overtook the dropped one between its record and its send (false alarm, thorough tier).
 	dropped := map[int]bool{}
+	dropOf := map[int]int{} // index of a Drop record -> index of its Queue record
 	for i, e := range log {
 		if e.Kind != c2.VerifC05Drop {
 			continue
@@ -1054,6 +1091,7 @@ func c05Abstract(cs *c05Case, ids []device.ID, issued []*c05Issued, log []c2.Ver
 			q := &log[k]
 			if q.Kind == c2.VerifC05Queue && !dropped[k] && q.Client == e.Client && q.SID == e.SID && q.P.ID == e.P.ID && q.P.Job == e.P.Job && q.P.Hash == e.P.Hash {
 				dropped[k] = true
+				dropOf[i] = k
 				break
 			}
 		}
@@ -1078,20 +1116,35 @@ func c05Abstract(cs *c05Case, ids []device.ID, issued []*c05Issued, log []c2.Ver
 		}
 		cc := strconv.Itoa(c)
 		key := [2]int{c, int(e.P.Job)}
+		if e.Kind == c2.VerifC05Queue && dropped[i] {
+			continue // reported at its Drop record
+		}
+		if k, ok := dropOf[i]; ok && e.Kind == c2.VerifC05Drop {
+			e = &log[k]
+			i0 := i
+			_ = i0
+			c, ok = idx[e.SID]
+			if !ok {
+				continue
+			}
+			cc = strconv.Itoa(c)
+			key = [2]int{c, int(e.P.Job)}
+		}
 		switch e.Kind {
 		case c2.VerifC05Queue:
 			cl := c05Class(&e.P)
-			d := b01(dropped[i])
+			isDrop := log[i].Kind == c2.VerifC05Drop
+			d := b01(isDrop)
 			switch {
 			case !e.Client && cl == "task":
-				if dropped[i] {
+				if isDrop {
 					t.anomalies = append(t.anomalies, "task-dropped-by-queue")
 				}
 				emit("T." + cc + "." + strings.ReplaceAll(taskTok(c, &e.P), ",", "."))
 				t.stage[key] = "sq"
 			case e.Client && cl == "result":
 				emit(fmt.Sprintf("RS.%s.%d.%s.%s", cc, e.P.Job, c05Tok(resVal(c, &e.P)), d))
-				if dropped[i] {
+				if isDrop {
 					t.dropped[c]++
 					t.stage[key] = "dropped"
 				} else {
@@ -1215,6 +1268,7 @@ func c05Plan(c *Ctx) []c05Job {
 	add("force-rekey-batch", c.N(3, 20))
 	add("wrapped-chan-burst", c.N(3, 12))
 	add("channel-idle", c.N(8, 60))
+	add("fragedge", c.N(2, 8))
 	if c.Thorough() {
 		add("big", 2)
 	}
